@@ -105,11 +105,13 @@ package shimagent
 //@ # filter: purge of expired / orphan certificates (its own contract is refined under C07)
 //@ func (*Server).filter(s)
 //@   flag logged
-//@   requires s != nil && inv(s) && wheld(s)
+//@   requires s != nil && inv(s) && wheld(s) && certsNonNil(s)
 //@   modifies mapof(s.certs), mapof(s.upstreamSSHCACertCache)
 //@   ensures wheld(s) && inv(s)
 //@   ensures err != nil ==> (inMemoryCerts == nil && inAgentKeys == nil)
 //@   ensures err == nil ==> inMemoryCerts == s.certs
+//@   ensures [listed-keys-are-well-formed] err == nil ==> forall(j, 0 <= j && j < len(inAgentKeys), inAgentKeys[j] != nil && akBlob(inAgentKeys[j]) == blobid(asKey(inAgentKeys[j])))
+//@   ensures [in-memory-entries-are-objects] certsNonNil(s)
 
 //@ func (*Server).remove(s, key)
 //@   flag logged
@@ -243,3 +245,40 @@ package shimagent
 //@     invariant forall(j, 0 <= j && j <= rangeindex, blobid(iface(agentKeys[j])) != blobid(cert.Key))
 //@     invariant forall(j, 0 <= j && j < len(agentKeys), agentKeys[j] != nil) && cert.Key != nil
 //@     invariant mapdom(s.certs) == old(mapdom(s.certs)) && mapval(s.certs) == old(mapval(s.certs))
+
+//@ # ---------------------------------------------------------------- C09 / C07 / C11: listings
+//@ import agent "golang.org/x/crypto/ssh/agent"
+//@ # wire blob of an agent.Key / what a no-upstream shim hides: a certificate blob that parses and whose key id decodes as a YSSHCA KeyID
+//@ ghost func akBlob(k *agent.Key) int = contentOf(elems(k.Blob), off(k.Blob), len(k.Blob))
+//@ ghost func hiddenBlob(b int) bool = certBlob(b) && parseOKid(b) && keyid.decOK(certKeyId(b))
+//@ ghost func certsNonNil(s *Server) bool = forall(h#bytes, h in dom(s.certs), s.certs[h] != nil)
+//@ ghost func cacheOff(s *Server) bool = !s.noUpstreamSSHCACert ==> mapdom(s.upstreamSSHCACertCache) == nokeys(s.upstreamSSHCACertCache)
+
+//@ func marshalAgentKey(key)
+//@   requires key != nil
+//@   ensures result != nil
+//@   ensures typeof(key) != *agent.Key ==> (fresh(result) && akBlob(result) == blobid(key))
+//@   ensures typeof(key) == *agent.Key ==> result == key.(*agent.Key)
+
+//@ func (*Server).List(s)
+//@   requires s != nil && inv(s) && unheld(s) && certsNonNil(s) && cacheOff(s)
+//@   modifies mstate(addrof(s.mu)), mapof(s.certs), mapof(s.upstreamSSHCACertCache)
+//@   let f0 = old(calls(filter))
+//@   ensures unheld(s) && inv(s) && certsNonNil(s) && cacheOff(s)
+//@   ensures [locked-lists-nothing] old(s.locked) ==> (len(result0) == 0 && result1 == nil && calls(filter) == f0 &&
+//@     mapdom(s.certs) == old(mapdom(s.certs)) && mapdom(s.upstreamSSHCACertCache) == old(mapdom(s.upstreamSSHCACertCache)))
+//@   ensures [purge-before-listing] !old(s.locked) ==> (calls(filter) == f0 + 1 && arg(filter, f0, 0) == s)
+//@   ensures [purge-failure-surfaces] (!old(s.locked) && ret(filter, f0, 2) != nil) ==> (result0 == nil && result1 == ret(filter, f0, 2))
+//@   ensures [success-after-purge] (!old(s.locked) && ret(filter, f0, 2) == nil) ==> result1 == nil
+//@   ensures [every-listed-identity-is-in-memory-or-a-visible-upstream-identity] (!old(s.locked) && ret(filter, f0, 2) == nil) ==>
+//@     forall(i, 0 <= i && i < len(result0), result0[i] != nil &&
+//@       (exists(h#bytes, h in dom(s.certs), akBlob(result0[i]) == blobid(asKey(s.certs[h]))) ||
+//@        exists(j, 0 <= j && j < len(ret(filter, f0, 1)), akBlob(result0[i]) == blobid(asKey(ret(filter, f0, 1)[j])) &&
+//@          (s.noUpstreamSSHCACert ==> !hiddenBlob(blobid(asKey(ret(filter, f0, 1)[j])))))))
+//@   ensures [visible-upstream-identities-stay-listed] (!old(s.locked) && ret(filter, f0, 2) == nil) ==>
+//@     forall(j, 0 <= j && j < len(ret(filter, f0, 1)),
+//@       (!(certBlob(blobid(asKey(ret(filter, f0, 1)[j]))) && parseOKid(blobid(asKey(ret(filter, f0, 1)[j])))) ||
+//@        (!(sha(blobid(asKey(ret(filter, f0, 1)[j]))) in dom(s.upstreamSSHCACertCache)) && !(s.noUpstreamSSHCACert && hiddenBlob(blobid(asKey(ret(filter, f0, 1)[j])))))) ==>
+//@       exists(i, 0 <= i && i < len(result0), akBlob(result0[i]) == blobid(asKey(ret(filter, f0, 1)[j]))))
+//@   ensures [in-memory-certificates-stay-listed] (!old(s.locked) && ret(filter, f0, 2) == nil) ==>
+//@     forall(h#bytes, h in dom(s.certs), exists(i, 0 <= i && i < len(result0), akBlob(result0[i]) == blobid(asKey(s.certs[h]))))
